@@ -14,8 +14,8 @@ from ..dataflow import Flow, chain, call_name
 from ..ordtype import evaluate_all, Ordering
 from ..poly import Poly, le, lt, eq
 from ..pathstate import Paths, Client
-from ..terms import Terms, plain, show, subterms, mk_cmp, is_none, stores, \
-    method_calls, owner_views, SITES, alternatives
+from ..terms import Terms, plain, show, match, V, subterms, mk_cmp, \
+    is_none, stores, method_calls, owner_views, SITES, alternatives
 from ..util import calls_in, qual, formals, has_fact, raises_of, raise_name, \
     returns_of
 
@@ -305,6 +305,18 @@ class _Model(object):
             if e2 is not None and e2[0] == self.L and e2[1] == self.XY and \
                     e1[1] == self.RES:
                 return frozenset("L")
+            if e1[0][0] == "new" and e1[1] == self.RES and \
+                    e1[0][2][:2] == ("call", ("global", "dict")) and \
+                    e1[0][2][2] == (self.G,) and not e1[0][2][3]:
+                # dict(<global table>) then .update(<this chip's table>): for
+                # a resource the chip has a list of its own, update REPLACES
+                # the global list - the scan sees one list or the other
+                ups = [x for x in method_calls(self.T, "update")
+                       if _kn(x[2]) == e1[0]]
+                if ups and all(len(x[3]) == 1 and _entry(_kn(x[3][0])) == (
+                        self.L, self.XY) for x in ups):
+                    self.replaced = ups[0][1]
+                    return frozenset()
             if e1[0][0] == "new":
                 return self._memo(e1[0], e1[1])
         if t[0] == "binop" and t[1] == "Add":
@@ -734,6 +746,16 @@ def r2_r3(program, rep):
              (paths.count, paths.helper_runs, mon.n_commit_states))
     if mon.n_commit_states == 0:
         raise AnalysisError("allocate: no path reaches the commit")
+    if getattr(m, "replaced", None) is not None:
+        rep.bad("C05-R2", inst, "chip table replaces the global one",
+                "the reservations scanned for a chip come from a copy of "
+                "the global table updated with the chip's own table: "
+                "dict.update replaces the global list of a resource by the "
+                "chip's list instead of adding to it, so on a chip with a "
+                "reservation of its own the global reservations of that "
+                "resource are never compared with the proposal and ranges "
+                "overlapping them are handed out", m.replaced)
+        return
     # overlap tests in forms the monitor does not follow
     if mon.unknown_tests and not m.stale:
         raise AnalysisError("allocate: an overlap test in a form that is "
@@ -868,10 +890,54 @@ def r4_raises(program, rep):
 
 r2_r3.helper_aware = True
 
+def r4_machine_capacity(program, rep):
+    """The bound allocate() checks a proposal against is machine[xy]: what
+    Machine.__getitem__ reports for a chip must be what was last stored for
+    it by Machine.__setitem__."""
+    MA = "rig.place_and_route.machine:Machine"
+    gi, si = program.get(MA + ".__getitem__"), program.get(
+        MA + ".__setitem__")
+    G, S = Terms(gi), Terms(si)
+    SELF = ("param", "self")
+    rets = [plain(G.term(r.value)) for r in returns_of(gi)
+            if r.value is not None]
+    m_ = match(("get", ("attr", SELF, V("exc")), ("param", formals(gi)[1]),
+                ("attr", SELF, V("dflt"))), rets[0]) if len(rets) == 1 \
+        else None
+    if m_ is None:
+        raise AnalysisError("Machine.__getitem__: not of the form "
+                            "<exceptions>.get(xy, <defaults>)")
+    EXC = ("attr", SELF, m_["exc"])
+    xy, res = [("param", p_) for p_ in formals(si)[1:3]]
+    st = [x for x in stores(S) if plain(x[2]) == EXC and plain(x[3]) == xy]
+    ok = bool(st) and all(plain(x[4]) == res for x in st)
+    always = ok and S.cfg.must_pass(
+        S.cfg.entry, lambda n: any(n is x[0] for x in st),
+        targets=[S.cfg.exit])
+    if ok and not always:
+        drops = [x for x in method_calls(S, ("pop", "__delitem__"))
+                 if plain(x[2]) == EXC] + [
+            d for d in ast.walk(si) if isinstance(d, ast.Delete)]
+        if drops:
+            raise AnalysisError("Machine.__setitem__ stores the resources "
+                                "on some paths and removes the entry on "
+                                "others; that form is not analysed")
+    rep.check(ok and always, "C05-R4", qual(si), "every assignment of a "
+              "chip's resources is recorded, so machine[xy] (the bound a "
+              "proposal is checked against) is what was last assigned",
+              construct="capacity store", node=si,
+              fail="Machine.__setitem__ does not record the resources on "
+                   "every path (and removes no earlier entry): after "
+                   "machine[xy] = a; machine[xy] = b the chip can still "
+                   "report a, and allocate() checks proposals against a "
+                   "capacity the chip does not have")
+
+
 def check(program, rep):
     rep.guard("C05-R1", r1_helpers, program, rep)
     rep.guard("C05-R2", r2_r3, program, rep)
     rep.guard("C05-R4", r4_raises, program, rep)
+    rep.guard("C05-R4", r4_machine_capacity, program, rep)
     # 'unreserved' is only as good as the reservations: the ones made for
     # the cores already in use come from build_core_constraints (C14-R5)
     from . import C14
